@@ -272,8 +272,62 @@ func emitInspect(c *Ctx, o iOpts, file []byte, validate bool, how string, hist [
 	emitInspectR(c, o, file, validate, how, hist, nil, nontrivial)
 }
 
+// inspectTablesViews: the tables for the file and, when the Reader under test is opened on a reused section
+// view, for every byte string such a chain of views can present (the data window or the bytes from
+// IndexOffset of a CARv2, to the depth of the chain): the model asks the hash oracle about sections of the
+// view, which a hostile header can place anywhere in the file.
+func inspectTablesViews(file []byte, depth int) (Val, Val) {
+	cands := [][]byte{file}
+	frontier := [][]byte{file}
+	for d := 0; d < depth; d++ {
+		var next [][]byte
+		for _, f := range frontier {
+			if len(f) < 51 {
+				continue
+			}
+			var h carv2.Header
+			if _, err := h.ReadFrom(bytes.NewReader(f[11:51])); err != nil {
+				continue
+			}
+			if h.DataOffset <= uint64(len(f)) {
+				win := f[h.DataOffset:]
+				if h.DataSize < uint64(len(win)) {
+					win = win[:h.DataSize]
+				}
+				next = append(next, win)
+			}
+			if h.IndexOffset != 0 && h.IndexOffset <= uint64(len(f)) {
+				next = append(next, f[h.IndexOffset:])
+			}
+		}
+		cands = append(cands, next...)
+		frontier = next
+	}
+	hokAll, hdrAll := VL{}, VL{}
+	seenH, seenD := map[string]bool{}, map[string]bool{}
+	for _, f := range cands {
+		hok, hdrs := inspectTables(f)
+		for _, x := range hok.(VL) {
+			if k := valString(x); !seenH[k] {
+				seenH[k] = true
+				hokAll = append(hokAll, x)
+			}
+		}
+		for _, x := range hdrs.(VL) {
+			if k := valString(x); !seenD[k] {
+				seenD[k] = true
+				hdrAll = append(hdrAll, x)
+			}
+		}
+	}
+	return hokAll, hdrAll
+}
+
 func emitInspectR(c *Ctx, o iOpts, file []byte, validate bool, how string, hist []uint64, reuse []uint64, nontrivial bool) {
 	hok, hdrs := inspectTables(file)
+	if len(reuse) > 0 {
+		hok, hdrs = inspectTablesViews(file, len(reuse))
+	}
 	hv := VL{}
 	for _, h := range hist {
 		hv = append(hv, VN(h))
